@@ -37,6 +37,7 @@ def Trig.one : Trig n K := ⟨1, 0⟩
 /-- `cos² + sin² = 1` in every mode. -/
 def Trig.IsUnit (T : Trig n K) : Prop := ∀ i, T.c i ^ 2 + T.s i ^ 2 = 1
 
+omit [Field K] in
 theorem Trig.ext' {T₁ T₂ : Trig n K} (hc : T₁.c = T₂.c) (hs : T₁.s = T₂.s) : T₁ = T₂ := by
   cases T₁; cases T₂; simp_all
 
